@@ -44,16 +44,33 @@ MENU_OWNER = [("send-bad-signature", {"C14"}), ("send-to-fee", {"C18", "C15"}), 
               ("param", {"C36"}), ("dao", {"C36"}), ("upgrade", {"C37", "C36"})]
 
 
+def _keys(m):
+    """the entries of a map-valued field that differ: the harness describes them as field[key]: spec=.. real=.."""
+    return set(re.findall(r"\[([^\]]+)\]: spec=", m.get("what", "")))
+
+
 def _pools(m):
     """which pool balances differ between specification and real state in a `bal` mismatch"""
-    mm = re.search(r"spec=(\{.*\}) real=(\{.*\})$", m.get("what", ""))
-    if not mm:
-        return {NODE_POOL, APP_POOL}
-    try:
-        a, b = json.loads(mm.group(1)), json.loads(mm.group(2))
-        return {p for p in (NODE_POOL, APP_POOL) if a.get(p) != b.get(p)}
-    except Exception:
-        return {NODE_POOL, APP_POOL}
+    ks = _keys(m)
+    return {p for p in (NODE_POOL, APP_POOL) if p in ks} if ks else {NODE_POOL, APP_POOL}
+
+
+# the property whose statement reads a parameter (PocketChain.ParamUsers): a module that does not see a governance
+# change of that parameter contradicts that property
+CFG_USERS = {"MaxValidators": "C22", "StakeMinimum": "C25", "SessionBlockFrequency": "C24", "MaxJailedBlocks": "C24",
+             "MaxApplications": "C28", "AppStakeMin": "C28", "MaxChains": "C28", "BaseRelaysPerPOKT": "C28",
+             "ClaimExpiration": "C32", "ClaimSubmissionWindow": "C32", "SessionNodeCount": "C32", "MinimumNumberOfProofs": "C32",
+             "ReplayAttackBurnMultiplier": "C25"}
+
+
+def _cfg_tags(m):
+    tags = {"C36"}
+    if m.get("variant", "").startswith("cfg.fee"):
+        tags.add("C15")
+    for k in _keys(m):
+        if k in CFG_USERS:
+            tags.add(CFG_USERS[k])
+    return tags
 
 
 def tags_of_mismatch(m):
@@ -71,8 +88,10 @@ def tags_of_mismatch(m):
             tags.add("C19")
         if APP_POOL in pools:
             tags.add("C20")
-    if field in ("acl", "daoOwner", "params") or field.startswith("cfg."):
+    if field in ("acl", "daoOwner", "params"):
         tags.add("C36")
+    if field.startswith("cfg."):
+        tags |= _cfg_tags(m)
     if field in ("upg", "featMem", "probe", "active"):
         tags.add("C37")
     if field == "claims":
@@ -90,7 +109,7 @@ def tags_of_mismatch(m):
             if name.startswith(prefix):
                 tags |= owners
                 break
-        if field == "bal" and "fee_collector" in m.get("what", ""):
+        if field == "bal" and "fee_collector" in _keys(m):
             tags.add("C15")
     elif op == "EndBlock":
         if field in ("updates", "tmSet", "prevPower", "prevTotal"):
